@@ -12,6 +12,7 @@ import (
 	"math/rand"
 	"os"
 	"runtime/debug"
+	"sort"
 	"strconv"
 	"strings"
 	"sync"
@@ -474,21 +475,54 @@ func (r *rec) collide(corpus []string) {
 		fen string
 		b   *board.Board
 	}
-	var pool []cand
-	for len(pool) < 2500 {
-		fen, _, b := r.rootWithPrefix(corpus)
-		if b == nil {
-			continue
-		}
-		_ = fen
-		if nb, err := board.FromFEN(b.FEN()); err != nil || nb.InvalidPieceCount() {
-			continue
-		}
-		pool = append(pool, cand{b.FEN(), b})
-	}
 	eng := 0
+	var pool []cand
+	var best1 []move.Move
 	for !r.full() {
-		tt := []int{32, 64, 1024, 4096}[r.rng.Intn(4)]
+		// the pool: two roots per round, each with 1,200 positions up to six plies away - positions that look alike, so
+		// that a move stored for one of them is often pseudo-legal (and, with a check on the board, illegal) in another
+		pool = nil
+		seen := map[board.Hash]bool{}
+		pms := move.NewStore()
+		for len(pool) < 2400 {
+			_, _, base := r.rootWithPrefix(corpus)
+			if base == nil {
+				continue
+			}
+			baseFen := base.FEN()
+			if nb, err := board.FromFEN(baseFen); err != nil || nb.InvalidPieceCount() {
+				continue
+			}
+			added := 0
+			for v := 0; v < 6000 && added < 1200 && len(pool) < 2400; v++ {
+				b, _ := board.FromFEN(baseFen)
+				for k := r.rng.Intn(7); k > 0; k-- {
+					lm := proj.Playable(b, pms)
+					if len(lm) == 0 {
+						break
+					}
+					b.MakeMove(lm[r.rng.Intn(len(lm))])
+				}
+				nb, err := board.FromFEN(b.FEN())
+				if err != nil || seen[nb.Hash()] {
+					continue
+				}
+				seen[nb.Hash()] = true
+				added++
+				pool = append(pool, cand{nb.FEN(), nb})
+			}
+		}
+		// what a depth-1 search of each pool position prefers (on a table of its own)
+		best1 = make([]move.Move, len(pool))
+		{
+			s1 := search.New(1 << 20)
+			for i, c := range pool {
+				s1.Clear()
+				_, m, _ := s1.Go(c.b, search.WithDepth(1), search.WithOutput(nil))
+				best1[i] = m
+			}
+		}
+		tt := []int{32, 64, 64, 1024}[r.rng.Intn(4)]
 		probe := search.New(tt)
 		tab := probe.VerifTT()
 		type key struct {
@@ -514,28 +548,64 @@ func (r *rec) collide(corpus []string) {
 				}
 			}
 		}
+		// children: the position after the move a shallow search of Y actually prefers (that is the one a reply is
+		// looked up for), and a few other children
+		var childPairs []pair
 		ms := move.NewStore()
-		for yi := 0; yi < len(pool) && len(pairs) < 4000; yi += 1 + r.rng.Intn(6) {
+		for yi := range pool {
 			y := pool[yi].b
+			if best1[yi] != 0 {
+				rv := y.MakeMove(best1[yi])
+				bi, sg := transp.VerifBucketSig(tab, y.Hash())
+				h := y.Hash()
+				y.UndoMove(best1[yi], rv)
+				for _, xi := range bySig[key{bi, sg}] {
+					if pool[xi].b.Hash() != h {
+						childPairs = append(childPairs, pair{xi, yi, true})
+					}
+				}
+			}
+			if yi%8 != 0 {
+				continue
+			}
 			for _, m := range proj.Playable(y, ms) {
 				rv := y.MakeMove(m)
 				bi, sg := transp.VerifBucketSig(tab, y.Hash())
 				h := y.Hash()
 				y.UndoMove(m, rv)
 				for _, xi := range bySig[key{bi, sg}] {
-					if pool[xi].b.Hash() != h {
+					if pool[xi].b.Hash() != h && len(pairs) < 4000 {
 						pairs = append(pairs, pair{xi, yi, true})
 					}
 				}
 			}
 		}
 		r.rng.Shuffle(len(pairs), func(i, j int) { pairs[i], pairs[j] = pairs[j], pairs[i] })
+		r.rng.Shuffle(len(childPairs), func(i, j int) { childPairs[i], childPairs[j] = childPairs[j], childPairs[i] })
+		// first those in which the preferred move gives check: whatever the table hands back for the position after
+		// it is most likely not a way out of the check
+		givesCheck := func(yi int) bool {
+			y := pool[yi].b
+			rv := y.MakeMove(best1[yi])
+			c := y.InCheck(y.STM)
+			y.UndoMove(best1[yi], rv)
+			return c
+		}
+		sort.SliceStable(childPairs, func(i, j int) bool { return givesCheck(childPairs[i].y) && !givesCheck(childPairs[j].y) })
+		if len(childPairs) > 80 {
+			childPairs = childPairs[:80]
+		}
+		sort.SliceStable(pairs, func(i, j int) bool {
+			a, b := pool[pairs[i].y].b, pool[pairs[j].y].b
+			return a.InCheck(a.STM) && !b.InCheck(b.STM)
+		})
+		if len(pairs) > 60 {
+			pairs = pairs[:60]
+		}
+		pairs = append(childPairs, pairs...)
 		for _, p := range pairs {
 			if r.full() {
 				break
-			}
-			if len(pairs) > 60 && r.rng.Intn(len(pairs)/60+1) != 0 {
-				continue
 			}
 			r.t++
 			eng++
@@ -546,7 +616,7 @@ func (r *rec) collide(corpus []string) {
 			r.search(s, eng, x.fen, nil, bx, request{depth: 3 + r.rng.Intn(4), hard: -1, soft: -1, stop: "none"}, tt, true)
 			var rqs []request
 			if p.child {
-				rqs = []request{{depth: 1 + r.rng.Intn(3), hard: -1, soft: -1, stop: "none"}, {depth: 30, hard: -1, soft: 1 + r.rng.Intn(200), stop: "none"},
+				rqs = []request{{depth: 1, hard: -1, soft: -1, stop: "none"}, {depth: 30, hard: -1, soft: 1 + r.rng.Intn(200), stop: "none"},
 					{depth: 1 + r.rng.Intn(2), hard: -1, soft: -1, stop: "none"}}
 			} else {
 				rqs = []request{{depth: 3, hard: 0, soft: -1, stop: "none"}, {depth: 3, hard: 1 + r.rng.Intn(40), soft: -1, stop: "none"},
